@@ -12,6 +12,7 @@ sorted duplicate-free lists on both sides.
   verif_id      level 0     one prev p                      ->  p
   verif_weaken  level 0     arg (i h), one prev p           ->  p.hyps ∪ {h} ⊢ p.concl
   verif_cut     level 0     prevs p q, q.concl ∈ p.hyps     ->  (p.hyps − q.concl) ∪ q.hyps ⊢ p.concl
+  verif_join    level 0     arg (i c), any prevs            ->  all hyps and conclusions of the prevs ⊢ c
   verif_exp     level 1     arg (l SEQ (l ITEMSPEC…))       ->  eval: SEQ; expand: the items
   verif_exp2    level 2     same as verif_exp
   theorem                   arg (s name)                    ->  the named theorem (hyps must be empty)
@@ -80,7 +81,7 @@ def lookup (thms : List (String × Seq)) (name : String) : Option Seq :=
 
 def kind (rule : String) : Kind :=
   if rule = "assume" || rule = "implies_elim" then .prim
-  else if rule = "verif_ax" || rule = "verif_id" || rule = "verif_weaken" || rule = "verif_cut" then .macro (some 0)
+  else if rule = "verif_ax" || rule = "verif_id" || rule = "verif_weaken" || rule = "verif_cut" || rule = "verif_join" then .macro (some 0)
   else if rule = "verif_exp" then .macro (some 1)
   else if rule = "verif_exp2" then .macro (some 2)
   else .unknown
@@ -115,6 +116,10 @@ def eval (rule : String) (a : Arg) (ps : List Seq) : Except RuleErr Seq :=
       if p.hyps.contains q.concl then .ok (mkSeq (p.hyps.filter (fun h => h != q.concl) ++ q.hyps) p.concl)
       else .error (.other 2)
     | _ => .error (.other 1)
+  else if rule = "verif_join" then
+    match argNat? a with
+    | some c => .ok (mkSeq (ps.flatMap (fun p => p.concl :: p.hyps)) c)
+    | none => .error (.other 1)
   else
     match a with
     | .list [s, _] =>
